@@ -238,8 +238,9 @@ func (c CharSet) mapHashFill(buf *bytes.Buffer) {
 	_ = binary.Write(buf, binary.LittleEndian, int32(len(c.ranges)))
 	_ = binary.Write(buf, binary.LittleEndian, int32(len(c.categories)))
 	for _, r := range c.ranges {
-		buf.WriteRune(r.First)
-		buf.WriteRune(r.Last)
+		// fixed width: WriteRune would turn every surrogate half into U+FFFD
+		_ = binary.Write(buf, binary.LittleEndian, int32(r.First))
+		_ = binary.Write(buf, binary.LittleEndian, int32(r.Last))
 	}
 	for _, ct := range c.categories {
 		// write the length of the cat and indicate if it's negated
@@ -269,10 +270,10 @@ func NewCharSetRuntime(buf string) CharSet {
 
 	retVal.ranges = make([]SingleRange, lenRanges)
 	for i := 0; i < int(lenRanges); i++ {
-		r := SingleRange{}
-		r.First, _, _ = b.ReadRune()
-		r.Last, _, _ = b.ReadRune()
-		retVal.ranges[i] = r
+		var first, last int32
+		_ = binary.Read(b, binary.LittleEndian, &first)
+		_ = binary.Read(b, binary.LittleEndian, &last)
+		retVal.ranges[i] = SingleRange{First: rune(first), Last: rune(last)}
 	}
 
 	retVal.categories = make([]Category, lenCats)
